@@ -175,18 +175,21 @@ func nodeShutdown(c *Ctx, rule string) {
 			if ifi == nil {
 				return false
 			}
-			cd := p.condOf(ifi.Cond, succ == 0)
-			cd.Atom = rg.LiftIn(b.Parent(), cd.Atom)
-			// field is nil / node already closed: nothing to release on that edge
-			if cd.Atom.Op == "EQ" && cd.Pol {
-				for i := 0; i < 2; i++ {
-					if cd.Atom.Args[i].Name == "nil" && cd.Atom.Args[1-i].IsField(k.field, isParam(cl, 0)) {
-						return true
+			// the outcome of the branch, and what it implies when it is the outcome of a boolean helper
+			// (`if alreadyClosed := n.markClosed(); alreadyClosed`)
+			for _, cd := range p.withImplied([]Cond{p.condOf(ifi.Cond, succ == 0)}) {
+				cd.Atom = rg.LiftIn(b.Parent(), cd.Atom)
+				// field is nil / node already closed: nothing to release on that edge
+				if cd.Atom.Op == "EQ" && cd.Pol {
+					for i := 0; i < 2; i++ {
+						if cd.Atom.Args[i].Name == "nil" && cd.Atom.Args[1-i].IsField(k.field, isParam(cl, 0)) {
+							return true
+						}
 					}
 				}
-			}
-			if cd.Pol && cd.Atom.IsField("closed", isParam(cl, 0)) {
-				return true
+				if cd.Pol && cd.Atom.IsField("closed", isParam(cl, 0)) {
+					return true
+				}
 			}
 			return false
 		}
